@@ -13,6 +13,8 @@ Fails(e) ==
          LET st == Standard(e.name) IN
          IF st = << >> THEN {"S:NoPublishedStandardForClass"}
          ELSE Chk("X:KitSignatureMatchesStandard", e.up = st[1] /\ e.down = st[2])
+    [] e.ev = "KitUnit" -> Chk("X:KitUnitChains", UnitChains(e.sigs))
+    [] e.ev = "KitComposite" -> Chk("X:KitCompositeSpans", Spans(e.c, e.a, e.b))
     [] e.ev = "ErrorClass" ->
          IF e.name \notin DOMAIN ErrorAncestors THEN {"S:UndocumentedErrorClass"}
          ELSE Chk("X:ErrorLattice", ErrorAncestors[e.name] \subseteq {e.mro[i] : i \in 1..Len(e.mro)})
